@@ -71,7 +71,12 @@ def lifecycle_history(rng, n):
     for o in base:
         r = rng.random()
         if r < 0.10:
-            ops.append({'op': 'reopen', 'a': {'args': rng.randrange(2)}})
+            if rng.random() < 0.5:
+                ops.append({'op': 'reopen', 'a': {'args': rng.randrange(2)}})
+            else:
+                # the database is locked for a moment at one of the statements of the open
+                ops.append({'op': 'reopen', 'a': {'args': 0, 'busy': rng.choice([1, 1, 2, 3, 4, rng.randint(5, 45)])}})
+                ops.append({'op': 'settings', 'a': {'fresh': 0}})
         elif r < 0.16:
             ops.append({'op': 'pickle', 'a': {}})
         elif r < 0.21:
@@ -95,6 +100,19 @@ def run(prop, tier, seed):
         cfg = gen.random_cfg(rng, small_limit=False)
         cfg['limit'] = rng.choice([2 ** 28, 2 ** 29, 2 ** 30])
         jobs.append((cfg, lifecycle_history(rng, length), seed + i, i + 1))
+    # enumeration: a handle opened while the database is locked for a moment at its n-th statement, for every n
+    for j in range(2 if tier == 'quick' else 8):
+        cfg = gen.random_cfg(rng, small_limit=False)
+        cfg['limit'] = rng.choice([2 ** 28, 2 ** 29])
+        keys = gen.key_universe(4, rng)
+        vals = gen.val_universe(rng)
+        ops = [o for o in gen.random_history(rng, 6, keys, vals, dict(clear=0, cull=0)) if o['op'] in ('set', 'add', 'incr')]
+        for nth in range(1, 61):
+            ops.append({'op': 'reopen', 'a': {'args': 0, 'busy': nth}})
+            ops.append({'op': 'settings', 'a': {'fresh': 0}})
+            if nth % 7 == 0:
+                ops += [o for o in gen.random_history(rng, 2, keys, vals, dict(clear=0, cull=0))]
+        jobs.append((cfg, ops, seed + 9000 + j, n + j + 1))
     traces = pmap(_hist, jobs, procs=14)
     out.traces = len(traces)
     out.events = sum(len(t['ev']) for t in traces)
